@@ -283,7 +283,7 @@ func (v *fnVC) oblige(kind, name string, props []string, clause string, pos stri
 }
 
 func (v *fnVC) safetyOb(what string, p token.Pos, goal *T) {
-	if v.ct != nil && v.ct.NoSafety {
+	if rc := v.root().ct; (v.ct != nil && v.ct.NoSafety) || (v.parent != nil && rc != nil && rc.NoSafety) {
 		v.e.assume(tImp(v.reach[v.curBlk.Index], goal))
 		return
 	}
